@@ -62,6 +62,11 @@ def cases(tier, seed):
                                 continue
                             yield dict(kind="blockmean", layout=[2, 2], sites=ms, order=order, ncomp=ncomp, w=w, unc=unc,
                                        region=region, center=center)
+                            if ncomp == 1 and not center and region == "given":
+                                # non-dyadic data on a large base level (gravity-like 978000.x): exposes cancellation in one-pass variance
+                                # formulas (seed C10-r2_2); compared at 1e-6 relative with the exact rational result
+                                yield dict(kind="blockmean", layout=[2, 2], sites=ms, order=order, ncomp=ncomp, w=w, unc=unc,
+                                           region=region, center=center, base="large")
                             if ncomp == 2 and not center and len(ms) % 2 == (0 if region == "given" else 0):
                                 for rep in ("mixed", "int_e"):
                                     yield dict(kind="blockmean", layout=[2, 2], sites=ms, order=order, ncomp=ncomp, w=w, unc=unc,
@@ -137,6 +142,9 @@ def run(case, rec):
     npts = e.size
     ncomp = case["ncomp"]
     data = [np.array([float((p + 2 + 3 * c) ** 2 + c) for p in range(npts)]) for c in range(ncomp)]
+    big = case.get("base") == "large"
+    if big:
+        data = [np.array([978000.0 + 0.1 * ((p * 7) % 5) + 0.013 * p for p in range(npts)]) for c in range(ncomp)]
     wts = None
     if case["w"]:
         wts = [np.array([[p + 1.0, (npts - p) + 0.5, 2.0 ** p][c] for p in range(npts)]) for c in range(ncomp)]
@@ -209,7 +217,7 @@ def run(case, rec):
                      for c in range(ncomp)])
     matched = None
     for ai, alt in enumerate(alts):
-        if all(B.close(gw[c][k], alt[c][k], 1e-10) for c in range(ncomp) for k in range(nocc)):
+        if all(B.close(gw[c][k], alt[c][k], 1e-6 if big else 1e-10) for c in range(ncomp) for k in range(nocc)):
             matched = ai
             break
     rec.check(matched is not None, "%s path: weights %s match none of the documented alternatives %s (block members %s)"
